@@ -19,6 +19,7 @@ def check(chk):
     chk.rule('C35.names', 'names given to DeleteStatement/add_field/updated_columns/nulled_columns and compared with condition.field are db_field_name')
     chk.rule('C35.deleted', 'ValueManager.deleted: null now and (explicitly set or previously non-null)')
     chk.rule('C35.flow', 'save(): insert unless empty, then delete nulled columns unless static-only; update(): delete nulled columns unless the clustering key is null')
+    chk.rule('C35.renumber', 'statements renumbered for a batch give every clause its own placeholder ids (update_context_id advances by each clause size)')
     chk.rule('C35.snapshot', 'previous_value is a snapshot: it is assigned None, a number, or a copy (deepcopy / copy) of the current value - never the live value object itself, or in-place edits of collections compare equal and are not written')
     q = chk.repo.mod(Q)
     cols = chk.repo.mod(COLS)
@@ -106,6 +107,10 @@ def check(chk):
               'update(): UPDATE when there are assignments; nulled columns deleted unless the clustering key is null', 'update flow changed')
     dl = q.func('DMLQuery.delete')
     chk.judge('if val is None and (not col.partition_key)' in src(dl) and 'self.model._primary_keys.items()' in src(dl), 'C35.flow', dl, 'delete(): all primary keys, skipping null clustering keys', 'delete key selection changed')
+
+    # batched saves / updates / deletes: the statement is renumbered before it is merged into the batch
+    from .c37 import renumber_loops
+    renumber_loops(chk, 'C35.renumber')
 
 
 def _snapshot_rule(chk, cols):
